@@ -1,8 +1,106 @@
+import RichModel.Model.Cells
+import RichModel.Model.Syntax
+import RichModel.Gen.CellWidths
 import RichModel.Drv.Proto
-/- Driver handlers for property C17 (stub: filled in when the model is built). -/
+/- Driver handlers for property C17 (Syntax / Traceback line fidelity). -/
 namespace RichModel.Drv.C17
-open RichModel RichModel.Proto
+open RichModel RichModel.Proto RichModel.Syntax
 
-def handlers : List (String × (List String → String)) := []
+def cw : Char → Nat := charWidthT Gen.cellWidths
+
+def decRange (s : String) : Option (Int × Int) :=
+  if s == "-" then none
+  else match s.splitOn "," with
+    | [a, b] => some (decInt a, decInt b)
+    | _ => none
+
+def decNatList (s : String) : List Nat :=
+  if s.isEmpty then [] else (s.splitOn " ").map decNat
+
+def encErr : Err → String
+  | .runtimeStopIteration => "err:RuntimeError"
+  | .zeroDivision => "err:ZeroDivisionError"
+
+def encLinesRes : Except Err (List Line) → String
+  | .error e => encErr e
+  | .ok ls => "ok:" ++ encStrList ls
+
+/-- option block shared by `syn_render` / `syn_rows`: 13 fields. -/
+def decOpts : List String → Option Opts
+  | [ln, start, range, hl, cwid, ts, ww, ig, mw, nw, lw, asc, pad] =>
+    some { lineNumbers := decBool ln, startLine := decNat start, lineRange := decRange range,
+           highlightLines := decNatList hl, codeWidth := decOptNat cwid, tabSize := decNat ts,
+           wordWrap := decBool ww, indentGuides := decBool ig, maxWidth := decNat mw,
+           optNoWrap := decBool nw, legacyWindows := decBool lw, asciiOnly := decBool asc, pad := decBool pad }
+  | _ => none
+
+def handlers : List (String × (List String → String)) := [
+  -- the whole of console.render(Syntax(...), options): rows of characters
+  ("syn_render", fun a => match a with
+    | code :: found :: toks :: skipRaises :: rest =>
+      match decOpts rest with
+      | none => "bad-args"
+      | some o =>
+        let toks := decStrList toks
+        let lex : List Char → List Line := fun _ => toks
+        let code := decStr code
+        if !inDomain cw (decBool skipRaises) o (decBool found) lex code then "unmodelled"
+        else encLinesRes (render cw (decBool skipRaises) o (decBool found) lex code)
+    | _ => "bad-args"),
+  -- the lexer contract: tokens.flatten = pygPre stripnl (expandTabs ts code)
+  ("syn_contract", fun a => match a with
+    | [code, ts, stripnl, toks] =>
+      encBool ((decStrList toks).flatten == pygPre (decBool stripnl) (expandTabs (decNat ts) (decStr code)))
+    | _ => "bad-args"),
+  ("syn_highlight", fun a => match a with
+    | [code, found, toks, range, skipRaises] =>
+      match highlight (decBool skipRaises) (decBool found) (decStrList toks) (decStr code) (decRange range) with
+      | .error e => encErr e
+      | .ok t => "ok:" ++ encStr t
+    | _ => "bad-args"),
+  ("syn_expandtabs", fun a => match a with
+    | [s, ts] => encStr (expandTabs (decNat ts) (decStr s))
+    | _ => "bad-args"),
+  ("syn_pygpre", fun a => match a with
+    | [s, stripnl] => encStr (pygPre (decBool stripnl) (decStr s))
+    | _ => "bad-args"),
+  ("syn_natstr", fun a => match a with
+    | [n] => encStr (natStr (decNat n))
+    | _ => "bad-args"),
+  ("syn_ncw", fun a => match a with
+    | [code, ln, start] =>
+      let o : Opts := { lineNumbers := decBool ln, startLine := decNat start, lineRange := none, highlightLines := [],
+                        codeWidth := none, tabSize := 4, wordWrap := false, indentGuides := false, maxWidth := 80,
+                        optNoWrap := false, legacyWindows := false, asciiOnly := false, pad := false }
+      toString (numbersColumnWidth o (decStr code))
+    | _ => "bad-args"),
+  ("syn_textsplit", fun a => match a with
+    | [s, allowBlank] => encStrList (textSplit (decStr s) (decBool allowBlank))
+    | _ => "bad-args"),
+  ("syn_remove_suffix", fun a => match a with
+    | [s] => encStr (removeSuffixNL (decStr s))
+    | _ => "bad-args"),
+  ("syn_guides", fun a => match a with
+    | [ts, lines] => encLinesRes (indentGuides (decNat ts) (decStrList lines))
+    | _ => "bad-args"),
+  ("syn_slice", fun a => match a with
+    | [lines, lo, hi] => encStrList (pySlice (decStrList lines) (decNat lo) (decInt hi))
+    | _ => "bad-args"),
+  ("syn_fit", fun a => match a with
+    | [l, w, pad, noCrop] =>
+      let l := decStr l
+      if !lineInDomain cw (decNat w) false l then "unmodelled"
+      else encStr (fitLine cw (decNat w) (decBool pad) (decBool noCrop) l)
+    | _ => "bad-args"),
+  -- Traceback._render_stack: the options of the Syntax built for a frame
+  ("tb_opts", fun a => match a with
+    | [lineno, extra, ww, ig] =>
+      let o := tracebackOpts (decNat lineno) (decNat extra) (decBool ww) (decBool ig) 100 false false false false
+      let r := match o.lineRange with
+        | some (s, e) => toString s ++ "," ++ toString e
+        | none => "-"
+      s!"{encBool o.lineNumbers};{o.startLine};{r};{" ".intercalate (o.highlightLines.map toString)};{encOptNat o.codeWidth};{o.tabSize};{encBool o.wordWrap};{encBool o.indentGuides}"
+    | _ => "bad-args")
+]
 
 end RichModel.Drv.C17
